@@ -501,6 +501,18 @@ func (i *interpreter) ndIntrinsic(name string, args []value) value {
 	case "Assert":
 		i.checkAssert(args[0], args[1].(string))
 		return nil
+	case "And", "Or":
+		var acc value = name == "And"
+		for _, x := range args[0].([]value) {
+			if name == "And" {
+				acc = i.symAnd(acc, x)
+			} else {
+				acc = i.symNot(i.symAnd(i.symNot(acc), i.symNot(x)))
+			}
+		}
+		return acc
+	case "Implies":
+		return i.symNot(i.symAnd(args[0], i.symNot(args[1])))
 	case "Reach":
 		ps.trace = append(ps.trace, "R:"+args[0].(string))
 		return nil
